@@ -2,7 +2,8 @@
 // the typed values and the function forms. Every operation is a scheduling point of package sched
 // and then performs the real atomic operation (which gives ThreadSanitizer the program's own
 // synchronisation). Typed values register themselves on first use so that vsync.ResetAll can put
-// them back to their zero value (a package-level atomic starts at zero in a fresh process).
+// them back to the value they had when the harness took over (vsync.Baseline: what the library's init functions
+// stored; zero for values first touched later, as in a fresh process).
 package vatomic
 
 import (
@@ -13,15 +14,31 @@ import (
 	"mcverif/vsync"
 )
 
-type resetter interface{ reset() }
+type resetter interface {
+	reset()
+	capture() func() // returns an action that puts the current value back
+}
 
-type reg struct{ known bool }
+type reg struct {
+	known   bool
+	restore func() // set by vsync.Baseline for values met before it (e.g. stored by the library's init functions)
+}
 
 //go:norace
 func (r *reg) note(x resetter) {
 	if !r.known {
 		r.known = true
-		vsync.RegisterReset(func() { r.known = false; x.reset() })
+		vsync.RegisterReset(func() {
+			r.known = false
+			if r.restore != nil {
+				r.restore()
+			} else {
+				x.reset()
+			}
+		})
+		if r.restore == nil {
+			vsync.RegisterCapture(func() { r.restore = x.capture() })
+		}
 	}
 }
 
@@ -39,6 +56,7 @@ type Bool struct {
 }
 
 func (b *Bool) reset()           { b.v.Store(false) }
+func (b *Bool) capture() func()  { v := b.v.Load(); return func() { b.v.Store(v) } }
 func (b *Bool) Load() bool       { sched.Point("atomic.load", b); b.r.note(b); return b.v.Load() }
 func (b *Bool) Store(val bool)   { sched.Point("atomic.store", b); b.r.note(b); b.v.Store(val) }
 func (b *Bool) Swap(n bool) bool { sched.Point("atomic.swap", b); b.r.note(b); return b.v.Swap(n) }
@@ -57,6 +75,7 @@ type Int32 struct {
 }
 
 func (x *Int32) reset()             { x.v.Store(0) }
+func (x *Int32) capture() func()    { v := x.v.Load(); return func() { x.v.Store(v) } }
 func (x *Int32) Load() int32        { sched.Point("atomic.load", x); x.r.note(x); return x.v.Load() }
 func (x *Int32) Store(v int32)      { sched.Point("atomic.store", x); x.r.note(x); x.v.Store(v) }
 func (x *Int32) Swap(v int32) int32 { sched.Point("atomic.swap", x); x.r.note(x); return x.v.Swap(v) }
@@ -76,6 +95,7 @@ type Int64 struct {
 }
 
 func (x *Int64) reset()             { x.v.Store(0) }
+func (x *Int64) capture() func()    { v := x.v.Load(); return func() { x.v.Store(v) } }
 func (x *Int64) Load() int64        { sched.Point("atomic.load", x); x.r.note(x); return x.v.Load() }
 func (x *Int64) Store(v int64)      { sched.Point("atomic.store", x); x.r.note(x); x.v.Store(v) }
 func (x *Int64) Swap(v int64) int64 { sched.Point("atomic.swap", x); x.r.note(x); return x.v.Swap(v) }
@@ -94,9 +114,10 @@ type Uint32 struct {
 	r reg
 }
 
-func (x *Uint32) reset()         { x.v.Store(0) }
-func (x *Uint32) Load() uint32   { sched.Point("atomic.load", x); x.r.note(x); return x.v.Load() }
-func (x *Uint32) Store(v uint32) { sched.Point("atomic.store", x); x.r.note(x); x.v.Store(v) }
+func (x *Uint32) reset()          { x.v.Store(0) }
+func (x *Uint32) capture() func() { v := x.v.Load(); return func() { x.v.Store(v) } }
+func (x *Uint32) Load() uint32    { sched.Point("atomic.load", x); x.r.note(x); return x.v.Load() }
+func (x *Uint32) Store(v uint32)  { sched.Point("atomic.store", x); x.r.note(x); x.v.Store(v) }
 func (x *Uint32) Swap(v uint32) uint32 {
 	sched.Point("atomic.swap", x)
 	x.r.note(x)
@@ -117,9 +138,10 @@ type Uint64 struct {
 	r reg
 }
 
-func (x *Uint64) reset()         { x.v.Store(0) }
-func (x *Uint64) Load() uint64   { sched.Point("atomic.load", x); x.r.note(x); return x.v.Load() }
-func (x *Uint64) Store(v uint64) { sched.Point("atomic.store", x); x.r.note(x); x.v.Store(v) }
+func (x *Uint64) reset()          { x.v.Store(0) }
+func (x *Uint64) capture() func() { v := x.v.Load(); return func() { x.v.Store(v) } }
+func (x *Uint64) Load() uint64    { sched.Point("atomic.load", x); x.r.note(x); return x.v.Load() }
+func (x *Uint64) Store(v uint64)  { sched.Point("atomic.store", x); x.r.note(x); x.v.Store(v) }
 func (x *Uint64) Swap(v uint64) uint64 {
 	sched.Point("atomic.swap", x)
 	x.r.note(x)
@@ -140,10 +162,11 @@ type Pointer[T any] struct {
 	r reg
 }
 
-func (x *Pointer[T]) reset()       { x.v.Store(nil) }
-func (x *Pointer[T]) Load() *T     { sched.Point("atomic.load", x); x.r.note(x); return x.v.Load() }
-func (x *Pointer[T]) Store(v *T)   { sched.Point("atomic.store", x); x.r.note(x); x.v.Store(v) }
-func (x *Pointer[T]) Swap(v *T) *T { sched.Point("atomic.swap", x); x.r.note(x); return x.v.Swap(v) }
+func (x *Pointer[T]) reset()          { x.v.Store(nil) }
+func (x *Pointer[T]) capture() func() { v := x.v.Load(); return func() { x.v.Store(v) } }
+func (x *Pointer[T]) Load() *T        { sched.Point("atomic.load", x); x.r.note(x); return x.v.Load() }
+func (x *Pointer[T]) Store(v *T)      { sched.Point("atomic.store", x); x.r.note(x); x.v.Store(v) }
+func (x *Pointer[T]) Swap(v *T) *T    { sched.Point("atomic.swap", x); x.r.note(x); return x.v.Swap(v) }
 func (x *Pointer[T]) CompareAndSwap(o, n *T) bool {
 	sched.Point("atomic.cas", x)
 	x.r.note(x)
@@ -167,7 +190,22 @@ func (x *Value) real() *atomic.Value {
 }
 
 //go:norace
-func (x *Value) reset()         { x.v = nil }
+func (x *Value) reset() { x.v = nil }
+
+//go:norace
+func (x *Value) capture() func() {
+	if x.v == nil {
+		return func() { x.v = nil }
+	}
+	held := x.v.Load()
+	return func() {
+		x.v = &atomic.Value{}
+		if held != nil {
+			x.v.Store(held)
+		}
+	}
+}
+
 func (x *Value) Load() any      { sched.Point("atomic.load", x); x.r.note(x); return x.real().Load() }
 func (x *Value) Store(v any)    { sched.Point("atomic.store", x); x.r.note(x); x.real().Store(v) }
 func (x *Value) Swap(v any) any { sched.Point("atomic.swap", x); x.r.note(x); return x.real().Swap(v) }
